@@ -353,9 +353,9 @@ class Battery:
     def shifts(self):
         for n in self.c['shifts']:
             for opk, f in SHIFTS.items():
-                exp = model_shift(self.a, n, opk)
-                iclass = nclass(n, self.L)
-                got = call(lambda: f(self.s, n))
+                exp = model_shift(self.a, cv(n), opk)
+                iclass = nclass(cv(n), self.L) + (',numpy-count' if isinstance(n, list) else '')
+                got = call(lambda: f(self.s, co(n)))
                 self.value(opk, 'plain', iclass, '-', got, exp, self.cls, (self.s,),
                            nontrivial=exp[0] == 'ok')
                 self.frame(opk, 'plain', iclass)
@@ -419,10 +419,10 @@ class Battery:
             else:
                 arg, kind = None, '-'
                 n = argspec
-                iclass = nclass(n, L)
-                exp = model_shift(m, n, opk)
+                iclass = nclass(cv(n), L) + (',numpy-count' if isinstance(n, list) else '')
+                exp = model_shift(m, cv(n), opk)
                 f = ISHIFTS[opk]
-                got = call(lambda: f(t, n))
+                got = call(lambda: f(t, co(n)))
             if mutable:
                 form = 'inplace'
                 ctx.op(f'{opk}:{form}', 'ok' if got[0] == 'ok' else type(got[1]).__name__)
@@ -522,7 +522,28 @@ def make_spec(rng, bits, kinds=None):
 
 
 def shift_pool(L):
-    return sorted({-1, 0, 1, 7, 8, 9, L - 1, L, L + 1, 10 ** 6, 2 ** 31, 2 ** 63 - 1, 2 ** 63, 2 ** 64, 10 ** 20}) + [True, False]   # a bool is an int
+    pool = sorted({-1, 0, 1, 7, 8, 9, L - 1, L, L + 1, 10 ** 6, 2 ** 31, 2 ** 63 - 1, 2 ** 63, 2 ** 64, 10 ** 20}) + [True, False]   # a bool is an int
+    if _np is not None:
+        # ... and so is a numpy integer scalar of any width (its own arithmetic wraps or overflows at that width: the count is a number, not a numpy operand)
+        pool += [['np', 'uint8', 3], ['np', 'uint8', min(L, 200)], ['np', 'int8', 5], ['np', 'uint8', 0], ['np', 'int64', L + 1], ['np', 'uint16', 300],
+                 ['np', 'uint64', 2 ** 63], ['np', 'int32', 1], ['np', 'int8', -1]]
+    return pool
+
+
+try:
+    import numpy as _np
+except Exception:  # noqa: BLE001 - numpy is optional
+    _np = None
+
+
+def cv(n):
+    """The integer a shift count stands for."""
+    return int(n[2]) if isinstance(n, list) else n
+
+
+def co(n):
+    """The object handed to the library for a shift count."""
+    return getattr(_np, n[1])(n[2]) if isinstance(n, list) else n
 
 
 def related(rng, a):
@@ -561,6 +582,8 @@ def gen_prog(rng, a, operands):
             prog.append([opk, spec])
         else:
             n = rng.choice([0, 1, 1, 2, 3, 7, 8, 9, L - 1, L, L + 1, L // 2, -1, 10 ** 6, rng.randint(0, L + 2), rng.choice([2 ** 31, 2 ** 63, 2 ** 64 + 1, 10 ** 20])])
+            if _np is not None and rng.random() < 0.15:
+                n = rng.choice([['np', 'uint8', rng.choice([1, 3, 8, min(L, 255)])], ['np', 'int8', 2], ['np', 'int64', L // 2], ['np', 'uint16', L % 60000]])
             prog.append([rng.choice(['lshift', 'rshift']), n])
     return prog
 
@@ -593,7 +616,7 @@ def gen_case(ctx):
         sh.append(rng.randint(1, L - 1))
     return {'cls': cls, 'a': a, 'pos': rng.randint(0, L) if cls in util.STREAMS else None,
             'route': rng.choice(ROUTES), 'lsb0': rng.random() < 0.2, 'operands': operands,
-            'shifts': sorted(set(sh)), 'prog': gen_prog(rng, a, operands)}
+            'shifts': sorted({x for x in sh if not isinstance(x, list)}) + [x for x in sh if isinstance(x, list)], 'prog': gen_prog(rng, a, operands)}
 
 
 def small_space(ctx):
